@@ -42,6 +42,8 @@ type Profile struct {
 	Failing   bool // may contain one construct that fails at render time
 	BigMaps   bool // bind maps with 2..12 entries (C02)
 	Ticks     bool // conditions may pass through the counting filter `tick`
+	NumPrint  bool // numeric variables only where C18 names them: print, comparison, case/when, arithmetic (not as index, limit, offset or range endpoint)
+	OrdMap    bool // use the ordered-map binding ms (lookup and size) and the byte-slice binding bs (print)
 	PlainText string
 }
 
@@ -148,6 +150,10 @@ func GenBindings(t *rapid.T, p Profile) Bindings {
 	b["r"] = r
 	// "z" stays undefined; "nl" is bound to nil
 	b["nl"] = SNil()
+	if p.OrdMap {
+		b["ms"] = SMap("a", SInt(small.Draw(t, "msa")), "b", SInt(small.Draw(t, "msb")))
+		b["bs"] = SStr(str.Draw(t, "bs"))
+	}
 	return b
 }
 
@@ -416,14 +422,14 @@ func (g *genv) loopNode(depth int, tag string) *N {
 }
 
 func (g *genv) modArg() *E {
-	if g.pick("modvar", 3) == 0 {
+	if !g.p.NumPrint && g.pick("modvar", 3) == 0 {
 		return Var([]string{"n", "k"}[g.pick("mv", 2)])
 	}
 	return LInt(int64(g.pick("modlit", 5)))
 }
 
 func (g *genv) smallInt() *E {
-	if g.pick("rv", 4) == 0 {
+	if !g.p.NumPrint && g.pick("rv", 4) == 0 {
 		return Var([]string{"n", "k"}[g.pick("rvv", 2)])
 	}
 	return LInt(int64(g.pick("rl", 7) - 1))
@@ -529,6 +535,15 @@ func (g *genv) exprD(k gkind, depth int, plain bool) *E {
 				return Prop(g.exprD(gArrInt, depth-1, true), []string{"first", "last"}[g.pick("fl", 2)])
 			},
 		)
+		if g.p.OrdMap {
+			opts = append(opts, func() *E {
+				key := []string{"a", "b", "zz", "size"}[g.pick("msk", 4)]
+				if g.pick("msbr", 2) == 0 {
+					return PropBr(Var("ms"), key)
+				}
+				return Prop(Var("ms"), key)
+			})
+		}
 		if !plain && g.p.Filters {
 			opts = append(opts,
 				func() *E {
@@ -544,6 +559,9 @@ func (g *genv) exprD(k gkind, depth int, plain bool) *E {
 			})
 		}
 	case gStr:
+		if g.p.OrdMap && depth >= 2 && !plain {
+			opts = append(opts, func() *E { return Var("bs") })
+		}
 		opts = append(opts,
 			func() *E { return Idx(g.exprD(gArrStr, depth-1, true), g.indexArg()) },
 			func() *E { return Prop(Idx(Var("r"), g.indexArg()), "v") },
@@ -606,7 +624,11 @@ func (g *genv) exprD(k gkind, depth int, plain bool) *E {
 }
 
 func (g *genv) indexArg() *E {
-	switch g.pick("ix", 6) {
+	ix := g.pick("ix", 6)
+	if g.p.NumPrint && ix == 0 {
+		ix = 2
+	}
+	switch ix {
 	case 0:
 		return Var([]string{"n", "k"}[g.pick("ixv", 2)])
 	case 1:
